@@ -23,7 +23,7 @@ import sys
 
 from project import fnum
 
-MODULE_HELPERS = ["_unwind", "_ladder_pairs"]
+MODULE_HELPERS = ["_unwind", "_ladder_pairs", "phi_major", "phi_major_inverse", "_rank_data"]
 METHODS = ["_calculate_rankings", "_calculate_team_ratings", "_c", "_sum_q", "_a"]
 
 
@@ -143,4 +143,44 @@ def to_records(log, teams):
                     out.append(_rec("gamma", ints=[ti, kk, rank], nums=[c, mu, s2], lists=[[m[0][1] for m in members]]))
         except Exception:  # noqa: BLE001 - an observation that cannot be projected is no observation
             continue
+    return out
+
+
+def to_predict_records(log, teams):
+    """Stage records from the raw observations of one predict_* call on the caller's `teams`:
+
+      pagg     _calculate_team_ratings([team]) / (teams)   ints = team positions, nums = team mu, nums2 = team sigma^2
+      phi      every phi_major(z) evaluated                nums = the arguments z, nums2 = the values returned
+      phi_inv  phi_major_inverse(p)                        nums = [p], nums2 = [value]
+      rank_in  _rank_data(vector)                          nums = the vector ranked, ints = the ranks returned
+    """
+    out = []
+    if not isinstance(teams, list) or not all(isinstance(t, list) for t in teams):
+        return out
+    zs, vs = [], []
+    pos, mus, s2s = [], [], []
+    for name, a, k, res in log:
+        try:
+            if name == "phi_major" and len(a) == 1 and _isnum(a[0]) and _isnum(res):
+                zs.append(a[0])
+                vs.append(res)
+            elif name == "phi_major_inverse" and len(a) == 1 and _isnum(a[0]) and _isnum(res):
+                out.append(_rec("phi_inv", nums=[a[0]], nums2=[res]))
+            elif name == "_rank_data" and len(a) == 1 and isinstance(a[0], list) and all(_isnum(x) for x in a[0]) \
+                    and isinstance(res, list) and all(isinstance(r, int) for r in res):
+                out.append(_rec("rank_in", nums=a[0], ints=res))
+            elif name == "_calculate_team_ratings" and len(a) >= 1 and isinstance(a[0], list) and isinstance(res, list) and len(res) == len(a[0]):
+                for tm, tr in zip(a[0], res):
+                    # predictions only read: the same list may stand in several slots, and is then every one of them
+                    for i in [q + 1 for q, y in enumerate(teams) if y is tm]:
+                        if _isnum(getattr(tr, "mu", None)) and _isnum(getattr(tr, "sigma_squared", None)):
+                            pos.append(i)
+                            mus.append(tr.mu)
+                            s2s.append(tr.sigma_squared)
+        except Exception:  # noqa: BLE001
+            continue
+    if zs:
+        out.append(_rec("phi", nums=zs, nums2=vs))
+    if pos:
+        out.append(_rec("pagg", ints=pos, nums=mus, nums2=s2s))
     return out
